@@ -135,6 +135,44 @@ def err(exc):
     return ["err", type(exc).__name__]
 
 
+def objects_of(e, acc=None):
+    """ids of the mutable objects of an event graph: events and the Duration objects of leaves"""
+    if acc is None:
+        acc = {}
+    acc[id(e)] = e
+    if isinstance(e, C):
+        d = e.__dict__.get("_duration", None)
+        if d is not None:
+            acc[id(d)] = d
+    else:
+        for c in e:
+            objects_of(c, acc)
+    return acc
+
+
+def aliased(result, source):
+    """a pure operation returns new events: no event or Duration object of the result may be one of the receiver's
+    (otherwise a later in-place edit of either silently changes the other).  [] when independent."""
+    src = objects_of(source)
+    res = {}
+    for r in (result if isinstance(result, (list, tuple)) and not isinstance(result, (S, P)) else [result]):
+        objects_of(r, res)
+    n = len(set(src) & set(res))
+    if not n:
+        return []
+    # demonstrate: double every leaf of the receiver in place and look at the returned value again
+    rs = result if isinstance(result, (list, tuple)) and not isinstance(result, (S, P)) else [result]
+    before = [snap(r) for r in rs]
+    leaves = [o for o in src.values() if isinstance(o, C)]
+    saved = [o._duration for o in leaves]
+    for o in leaves:
+        o.duration = o.duration * 2 + 1
+    after = [snap(r) for r in rs]
+    for o, d in zip(leaves, saved):
+        o._duration = d
+    return [["aliased-with-receiver", n, "result-changes-when-receiver-is-edited" if after != before else "latent", after]]
+
+
 def keep_of(c):
     if c[0] == "durgt":
         n = int(c[1])
@@ -197,7 +235,7 @@ def apply_op(t, op):
         return t.extend_until(T(op[2]), prolong_chronon=prolong), []
     if k == "sequentialize":
         r = t.sequentialize()
-        return r, [["recv", snap(t)]]
+        return r, [["recv", snap(t)]] + aliased(r, t)
     if k == "concat":
         o = build(op[2])
         r = t.concatenate_by_tag(o) if op[1] in ("1", "true") else t.concatenate_by_index(o)
@@ -257,7 +295,7 @@ def run(case):
         out = ["ok", ["parts"] + [snap(p) for p in parts]]
         if snap(t) != before:
             out.append(["recv-changed", snap(t)])
-        return out
+        return out + aliased(parts, t)
     if k == "get_tag":
         t = build(case[1])
         try:
